@@ -1,7 +1,8 @@
 ----------------------------- MODULE MC_Symbols -----------------------------
 EXTENDS Symbols
 Repls == { <<"1">>, <<"BC">>, <<"AB">>, <<"AB", "+", "BC">> }
-ReplsWide == Repls \cup { <<"2">>, <<"ABC">>, <<"XAB">>, <<"(", "BC", "*", "2", ")">> }
+\* the last two replacement texts contain backslashes (an escaped tab inside a string, a doubled backslash)
+ReplsWide == Repls \cup { <<"2">>, <<"ABC">>, <<"XAB">>, <<"(", "BC", "*", "2", ")">>, <<"\"x\\ty\"">>, <<"'\\\\'">> }
 Uses == { U(<<"AB">>), U(<<"ABC", "+", "AB">>), U(<<"XAB", "+", "BC">>), U(<<"AB", "+", "BC", "+", "ABC">>) }
 LinesCore == { D(n, r) : n \in {"AB", "BC", "ABC"}, r \in Repls } \cup Uses
 LinesWide == { D(n, r) : n \in {"AB", "BC", "ABC", "XAB"}, r \in ReplsWide } \cup Uses \cup { U(<<"BC", "*", "XAB">>) }
